@@ -73,7 +73,9 @@ Record Inv (cf : config) (s : state) : Prop := {
              futs s f1 = Some F1 -> futs s f2 = Some F2 -> f_key F1 = f_key F2 ->
              f_written F1 = Some w -> (w < f_read_at F2)%nat -> (w < f_reset_seen F2)%nat;
   I_seq  : forall f1 f2 F1 F2, (f1 < f2)%nat -> futs s f1 = Some F1 -> futs s f2 = Some F2 ->
-             f_key F1 = f_key F2 -> exists u, f_unmarked F1 = Some u /\ (u < f_created F2)%nat
+             f_key F1 = f_key F2 -> exists u, f_unmarked F1 = Some u /\ (u < f_created F2)%nat;
+  (* a marker always designates a load whose task has not yet removed it: not completed *)
+  I_pmark : forall k f F, pending s k = Some f -> futs s f = Some F -> premark (f_tpc F) = true
 }.
 
 (* ------------------------------------------------------------------ step inversion *)
@@ -554,6 +556,28 @@ Proof.
     pose proof (T _ _ EF0) as X. unfold tinv in X. rewrite Etpc in X. destruct X as (_ & _ & _ & X & _). congruence.
 Qed.
 
+(* ------------------------------------------------------------------ I_pmark *)
+Lemma pres_pmark cf s t b s' : Inv cf s -> step cf s t b = Some s' ->
+  forall k f F, pending s' k = Some f -> futs s' f = Some F -> premark (f_tpc F) = true.
+Proof.
+  intros IV H. apply step_inv in H as (s1 & -> & H).
+  pose proof (I_wf _ _ IV) as W. pose proof (I_pend _ _ IV) as P. pose proof (I_pmark _ _ IV) as Q.
+  destruct t as [c|ft].
+  - caller_cases H; [op_cases|..]; red_st; try exact Q.
+    all: intros k f F; unfold updN, updn; Neq; neq.
+    all: try (intros _ [= <-]; reflexivity).
+    all: try (intros HP HF; now apply (Q _ _ _ HP HF)).
+    all: try (intros HP; destruct (P _ _ HP) as (Fp & HFp & _); rewrite W in HFp by lia; discriminate).
+    all: try (intros [= <-]; rewrite W by lia; discriminate).
+    all: try (intros HP [= <-]; red_st; now apply (Q _ _ _ HP EF0)).
+  - task_cases H; red_st; try exact Q.
+    all: intros k f F; unfold updN, updn; Neq; neq; try discriminate.
+    all: try (intros HP HF; now apply (Q _ _ _ HP HF)).
+    all: try (intros _ [= <-]; reflexivity).
+    all: try (intros HP [= <-]; pose proof (Q _ _ _ HP EF0) as X; rewrite Etpc in X; discriminate).
+    all: try (intros HP _; destruct (P _ _ HP) as (Fp & HFp & HKp); rewrite EF0 in HFp; injection HFp as <-; congruence).
+Qed.
+
 (* ------------------------------------------------------------------ the invariant holds on every run *)
 Lemma Inv_init cf t0 progs : Inv cf (init t0 progs).
 Proof.
@@ -577,6 +601,7 @@ Proof.
   - intros Ht. exact (pres_lateC _ _ _ _ _ Ht IV H).
   - intros Ht. exact (pres_lateF _ _ _ _ _ Ht IV H).
   - exact (pres_seq _ _ _ _ _ IV H).
+  - exact (pres_pmark _ _ _ _ _ IV H).
 Qed.
 
 Lemma Inv_run cf sch : forall s, Inv cf s -> Inv cf (run cf s sch).
@@ -812,4 +837,57 @@ Proof.
            ++ red_st. rewrite updn_eq. red_st. split; [reflexivity|eauto].
         -- red_st. rewrite updn_eq. red_st. split; [reflexivity|eauto].
   - red_st. rewrite updn_eq. red_st. split; [reflexivity|eauto].
+Qed.
+
+(* ------------------------------------------------------------------ no join after completion *)
+(* a future that is still registered as the in-flight load of k (marker present) has not been
+   completed: the task removes the marker BEFORE complete().  Hence whoever finds a marker in its
+   stripe section joins a load whose completion is still in the future. *)
+Theorem no_join_after_completion cf t0 progs s k f : reachable cf t0 progs s ->
+  pending s k = Some f ->
+  exists F, futs s f = Some F /\ f_key F = k /\ f_state F = Computing /\ f_ncomplete F = 0%nat
+            /\ premark (f_tpc F) = true.
+Proof.
+  intros R HP. pose proof (Inv_reachable _ _ _ _ R) as IV.
+  destruct (I_pend _ _ IV _ _ HP) as (F & HF & HK).
+  pose proof (I_pmark _ _ IV _ _ _ HP HF) as PM.
+  pose proof (I_task _ _ IV _ _ HF) as T. unfold tinv in T.
+  exists F. repeat split; try assumption.
+  - destruct (f_tpc F); try discriminate; tauto.
+  - destruct (f_tpc F); try discriminate; tauto.
+Qed.
+
+(* the stripe section of a missing caller always leaves it on a future that is still Computing
+   (joined or freshly created): the value it will return is produced by a completion that
+   happens after its miss, hence after any invalidation that preceded the miss *)
+Theorem stripe_joins_only_uncompleted cf t0 progs s c k r rs b s' : reachable cf t0 progs s ->
+  c_pc (callers s c) = CStripe k r rs -> step cf s (Caller c) b = Some s' ->
+  exists f F, c_pc (callers s' c) = CWait k f /\ futs s' f = Some F /\ f_key F = k
+              /\ f_state F = Computing /\ f_ncomplete F = 0%nat.
+Proof.
+  intros R Hpc. unfold step, caller_step. rewrite Hpc.
+  destruct (pending s k) as [f|] eqn:HP; intros [= <-].
+  - destruct (no_join_after_completion _ _ _ _ _ _ R HP) as (F & HF & HK & HS & HN & _).
+    exists f, F. red_st. rewrite updn_eq. red_st. repeat split; assumption.
+  - exists (nfut s). eexists. red_st. rewrite !updn_eq. red_st. repeat split.
+Qed.
+
+(* the property sentence: once every load of k has completed (the loader returned and its waiters
+   were released), a later miss on k -- e.g. after invalidate/remove/expiry -- starts a NEW load;
+   it can never be handed an earlier load's value *)
+Theorem miss_after_completion_starts_new_load cf t0 progs s c k r rs b s' :
+  reachable cf t0 progs s ->
+  c_pc (callers s c) = CStripe k r rs ->
+  (forall f F, futs s f = Some F -> f_key F = k -> f_state F <> Computing) ->
+  step cf s (Caller c) b = Some s' ->
+  nfut s' = S (nfut s) /\ c_pc (callers s' c) = CWait k (nfut s)
+  /\ exists F, futs s' (nfut s) = Some F /\ f_key F = k /\ f_tpc F = TLoad /\ f_state F = Computing
+               /\ pending s' k = Some (nfut s).
+Proof.
+  intros R Hpc Hall. unfold step, caller_step. rewrite Hpc.
+  destruct (pending s k) as [f|] eqn:HP.
+  - destruct (no_join_after_completion _ _ _ _ _ _ R HP) as (F & HF & HK & HS & _).
+    exfalso. exact (Hall _ _ HF HK HS).
+  - intros [= <-]. red_st. rewrite !updn_eq, updN_eq. red_st. repeat split.
+    eexists. repeat split.
 Qed.
